@@ -189,6 +189,8 @@ def scenario_model_line(sc, log, order):
     remap = {s: i for i, s in enumerate(shards)}
     clients = []
     for a, act in enumerate(sc.acts):
+        if act[1] not in ("L", "G", "g", "S", "W", "w"):
+            continue   # collections, drops, rejected calls: not clients of the cache
         sh = remap[log.shards[act[2] if act[1] not in ("W", "w") else sc.acts[act[2]][2]]]
         if act[1] == "L":
             clients.append("%dj" % sh)
